@@ -356,6 +356,9 @@ func (c *fsChecker) step(i int, op FsOp) bool {
 		}
 		g := append([]string(nil), got...)
 		sort.Strings(g)
+		for i := range got {
+			got[i] = "#overwritten-by-caller" // the result belongs to the caller
+		}
 		want := c.m.List(op.D)
 		if strings.Join(g, "\x00") != strings.Join(want, "\x00") {
 			c.fail(p+".list", "", fmt.Sprintf("op %d %v returned %d names %v, model says %d names %v", i, op, len(g), clip(g), len(want), clip(want)))
@@ -453,6 +456,7 @@ func runFsSeq(p *FsPlan, system string, keepLog bool) fsSeqResult {
 // ---- generator of valid sequential histories ------------------------------------
 
 var namePool = []string{"a", "b", "a.tmp", "c"}
+var oddNames = []string{"log..old", "...", "a b", "-x", "a", ".hidden", "x~"}
 var sizePool = []int{0, 1, 10, 100, 4095, 4096, 4097, 10000, 70000}
 
 func genFsSeq(rng *simrt.Rand, maxOps int, acBias bool) (dirs []string, ops []FsOp) {
@@ -504,9 +508,13 @@ func genFsSeq(rng *simrt.Rand, maxOps int, acBias bool) (dirs []string, ops []Fs
 	}
 	n := 1 + rng.Intn(maxOps)
 	bulked := false
+	names := namePool
+	if rng.Chance(1, 5) {
+		names = oddNames // unusual but legal simple names
+	}
 	for len(ops) < n {
 		d := dirs[rng.Intn(len(dirs))]
-		name := namePool[rng.Intn(len(namePool))]
+		name := names[rng.Intn(len(names))]
 		ex := existing()
 		var op FsOp
 		sel := rng.Intn(16)
